@@ -201,7 +201,7 @@ func runC03(c *mon.Ctx) {
 	id := gen.NewIdentity(c.RandShared("id"), "a.example", "ed25519:k1")
 	id2 := gen.NewIdentity(c.RandShared("id2"), "b.example:8448", "ed25519:k2")
 	versions := sortedVersions()
-	n := c.Scale(64, 2000)
+	n := c.Scale(64, 12000)
 	for k := 0; k < n; k++ {
 		for _, ver := range versions {
 			t := ref.Traits(string(ver))
